@@ -18,6 +18,7 @@ def make_tree(rng):
     rng.shuffle(names)
     good = names[: rng.randrange(2, 5)]
     shared_var = rng.random() < 0.5
+    same_pair_grey = rng.choice([138, 130, 150, 119, 160])
     for i, nme in enumerate(good):
         css = gen_css.stylesheet(rng)
         if shared_var:
@@ -26,6 +27,12 @@ def make_tree(rng):
                    ".uses-shared { color: var(--shared); background-color: #fff }\n"
                    ".uses-shared-bg { color: #777777; background-color: var(--sharedbg) }\n"
                    ".uses-shared-fb { color: var(--shared, #767676); background-color: #fff }\n") + css
+        if rng.random() < 0.6:
+            # the same failing pair in every file, each in another notation: a result must not travel from file to file
+            g = same_pair_grey
+            spell_ = [("#%02x%02x%02x" % (g, g, g), "#fff"), ("rgb(%d, %d, %d)" % (g, g, g), "white"), ("hsl(0, 0%%, %s%%)" % round(g / 2.55, 4), "#ffffff"),
+                      ("rgba(%d, %d, %d, 1)" % (g, g, g), "rgb(255, 255, 255)")][i % 4]
+            css += "\n.same-pair-%d { color: %s; background-color: %s }\n" % (i, spell_[0], spell_[1])
         files[nme] = css.encode("utf-8")
     faults = {}
     for kind in rng.sample(FAULTS, rng.randrange(0, 4)):
